@@ -866,7 +866,7 @@ class SpecMon(Monitor):
     def resolve_lookahead(self, m, st):
         """In the fold look-ahead states the decision depends on the next, not yet consumed byte."""
         if self.q[0] in ("WE", "VE"):
-            if not st.tape:
+            if not st.tape or (st.run is not None and st.ahead[1] == 0):
                 return False
             c = st.tape[0]
             mask = st.cells[c]
@@ -1197,6 +1197,8 @@ class SpecMon(Monitor):
     # ---- verdict at return ------------------------------------------------------------------------
     def finish(self, m, st):
         rv = st.done
+        if st.run is not None:
+            raise Unanalysable("a result is returned while a measured look-ahead run has not been consumed")
         kind, payload = decode_result(m, st, rv, self.kind)
         # feed the look-ahead the implementation has seen but not consumed
         sim = self.clone()
